@@ -1,7 +1,7 @@
 SPECIFICATION GenSpec
 CONSTANTS
   MaxB = 2
-  MaxW = 2
+  MaxW = 1
   NFiles = 1
   SecondHandle = FALSE
   MaxSize = 3
